@@ -106,7 +106,11 @@ func (fr *frame) externalModel(name string, cc *ssa.CallCommon, args []T, st *St
 		return []T{app("Bool", "hashableT", app("Int", "reflTagOf", args[0]))}, true
 	}
 	if cc.IsInvoke() && cc.Method.Name() == "Error" && cc.Signature().Params().Len() == 0 {
-		return []T{c.fresh("errstr", "Str")}, true
+		// assumption (listed in evidence): error messages are non-empty strings
+		es := c.fresh("errstr", "Str")
+		c.assume(st, lt(IntLit(0), app("Int", "strlen", es)))
+		c.Defaults["error.Error() returns a non-empty message"] = true
+		return []T{es}, true
 	}
 	callee := cc.StaticCallee()
 	if callee != nil && !InRepo(callee) || cc.IsInvoke() && !methodInRepo(cc.Method) {
